@@ -10,6 +10,8 @@ import (
 	"github.com/hashicorp/hcl-lang/lang"
 	"github.com/hashicorp/hcl-lang/reference"
 	"github.com/hashicorp/hcl-lang/schema"
+	"github.com/hashicorp/hcl/v2"
+	"github.com/hashicorp/hcl/v2/hclsyntax"
 	"github.com/zclconf/go-cty/cty"
 
 	"verif/internal/explore"
@@ -259,6 +261,16 @@ func c19Schema() *schema.BodySchema {
 					depKey(nil, []schema.AttributeDependent{attrDep("kind", cty.StringVal("apps.v1"))}): {Attributes: map[string]*schema.AttributeSchema{"replicas": anyOf(cty.Number)}},
 				}},
 			"plain": {Body: &schema.BodySchema{Attributes: map[string]*schema.AttributeSchema{"s": anyOf(cty.String)}}},
+			// a block address that ends in the value of an attribute (Terraform: provider alias)
+			"prv": {Labels: []*schema.LabelSchema{{Name: "name"}}, Body: &schema.BodySchema{Attributes: map[string]*schema.AttributeSchema{"alias": anyOf(cty.String)}},
+				Address: &schema.BlockAddrSchema{Steps: schema.Address{schema.StaticStep{Name: "prv"}, schema.LabelStep{Index: 0}, schema.AttrValueStep{Name: "alias", IsOptional: true}}, ScopeId: "sp", AsReference: true}},
+			// a block type whose static body declares nothing but the count / for_each extensions (all attributes come
+			// from dependent bodies), used with a label no dependent body is registered for
+			"xres": {Labels: []*schema.LabelSchema{{Name: "type", IsDepKey: true}, {Name: "name"}},
+				Body: &schema.BodySchema{Extensions: &schema.BodyExtensions{Count: true, ForEach: true}},
+				DependentBody: map[schema.SchemaKey]*schema.BodySchema{
+					depKey([]schema.LabelDependent{{Index: 0, Value: "known"}}, nil): {Attributes: map[string]*schema.AttributeSchema{"x": anyOf(cty.String)}},
+				}},
 			// dynamic blocks in a block type that has no dependent bodies (static body with the extension), and below a
 			// nested block of it
 			"dhost": {Body: &schema.BodySchema{Extensions: &schema.BodyExtensions{DynamicBlocks: true},
@@ -343,6 +355,9 @@ func c19Configs() [][]citem {
 	out = append(out, []citem{blk("variable", []string{"a"}), blk("svc", []string{"a"}, attr("kind", cStr("web")), attr("port", cRef("var.a")), blk("tls", nil, attr("cert", cStr("c")))), blk("svc", []string{"b"}, attr("kind", cStr("db")), attr("engine", cRef("var.a")))})
 	out = append(out, []citem{blk("variable", []string{"a"}), blk("svc", []string{"b"}, attr("kind", cStr("db")), attr("engine", cRef("var.a"))), blk("svc", []string{"a"}, attr("kind", cStr("web")), attr("port", cRef("var.a")), blk("tls", nil, attr("cert", cStr("c"))))})
 	out = append(out, []citem{blk("variable", []string{"a"}), blk("svc", []string{"c"}, attr("kind", cStr("apps.v1")), attr("replicas", cRef("var.a")))})
+	out = append(out, []citem{blk("variable", []string{"a"}), blk("prv", []string{"p"}, attr("alias", cStr("west"))), blk("prv", []string{"q"}), blk("prv", []string{"r"}, attr("alias", cRef("var.a"))), blk("prv", []string{"s"}, attr("alias", cTmpl("var.a")))})
+	out = append(out, []citem{blk("variable", []string{"a"}), blk("xres", []string{"other", "b"}, attr("count", cRef("var.a"))), blk("xres", []string{"known", "c"}, attr("for_each", cRef("var.a")), attr("x", cRef("var.a"))),
+		blk("xres", []string{"other", "d"}, attr("for_each", cObj("k", cRef("var.a"))))})
 	out = append(out, []citem{blk("variable", []string{"a"}), blk("dhost", nil, attr("hn", cRef("var.a")),
 		blk("dynamic", []string{"rule"}, attr("for_each", cRef("var.a")), blk("content", nil, attr("name", cRef("var.a")),
 			blk("dynamic", []string{"sub"}, attr("for_each", cList()), blk("content", nil, attr("sn", cStr("s s")))))))})
@@ -502,7 +517,7 @@ func c19Pair(cfg []citem, arrayForm bool, c *report.Collector, l *report.Local) 
 func c19ConsForms() []cval {
 	// (plain strings are not spelled like a traversal: a JSON string that is one IS a reference under a
 	// Reference constraint - the documented legacy form, covered as "reflegacy" in part 1)
-	return []cval{cStr("x y"), cStr("foo !"), cStr(""), cStr("fn(decl.foo.bar)"), cStr("nosuchfn(decl.foo)"), cStr("[decl.foo]"), cNum("3"), cBool("true"), cRef("decl.foo"), cRef("decl.foo.bar"), cTmpl("decl.foo.bar"),
+	return []cval{cStr("x y"), cStr("foo !"), cStr(""), cStr("fn(decl.foo.bar)"), cStr("nosuchfn(decl.foo)"), cStr("[decl.foo]"), cNum("3"), cBool("true"), cRef("decl.foo"), cRef("decl.foo.bar"), cTmpl("decl.foo.bar"), cRef(`decl.foo["k"]`), cRef("decl.foo[0]"),
 		cList(), cList(cStr("a b")), cList(cStr("a b"), cRef("decl.foo.bar")), cList(cList(cStr("n n"))), cList(cObj("foo", cStr("x y"))),
 		cObj(), cObj("foo", cStr("x y")), cObj("foo", cStr("x y"), "bar", cBool("true")), cObj("foo", cRef("decl.foo.bar"), "bar", cRef("decl.foo")), cObj("k", cObj("foo", cList(cNum("1"), cNum("2")))),
 		cObj("foo", cList(cStr("a b"), cStr("b c"))), cObj("zz", cRef("decl.foo.bar")),
@@ -540,6 +555,13 @@ func c19PairIn(ent gen.Entry, cfg []citem, arrayForm bool, c *report.Collector, 
 	bad := func(clause, what, detail string) {
 		if ent.Cons != nil {
 			what += "/" + ent.Cons.Name
+		}
+		if clause == "origins:addresses-differ" && strings.Contains(nat, `= decl.foo["k"]`) {
+			// one situation whatever the constraint: a reference with a quoted index key standing alone
+			what = "origins:reference-with-string-index-key-under-Reference"
+		}
+		if clause == "targets:differ" && strings.Contains(nat, `= decl.foo["k"]`) {
+			what = "targets:reference-with-string-index-key-under-Reference"
 		}
 		c.Add(&report.Violation{Clause: clause, Site: what, Check: "c19", SchemaID: ent.ID, Files: []report.FileSpec{{Path: "/p0", Name: "main.tf", Text: nat}, {Path: "/p0", Name: "main.tf.json", Text: js}},
 			Detail: detail + "\nnative:\n" + nat + "\njson:\n" + js})
@@ -695,6 +717,7 @@ func C19(tier string) int {
 		}
 		l.Count("constraint_pairs", 5)
 	})
+	c19JSONOriginText(c)
 	c.Sample(map[string]any{"native": renderNative(cfgs[0], ""), "json": func() string { b, _ := json.Marshal(renderJSON(cfgs[0], false)); return string(b) }()})
 	_ = lang.Path{}
 	return c.Finish(report.FinishOpts{
@@ -702,4 +725,62 @@ func C19(tier string) int {
 		Rule:         "E2 differential: abstract configurations over the constructs both syntaxes express (blocks with 0-2 labels, several blocks of a type, literals of all types, lists/maps/objects nested, references as \"${...}\" templates and legacy bare strings, templates with surrounding text, any-attribute bodies) rendered twice (native; JSON in object form and in array form) under one schema with addressable blocks (as reference, body-as-data with inferred list/object nested blocks), addressable attributes (as reference + expression type) and every constraint kind; oracle: equal projections of absolute targets (address, type, scope, name, nesting), of local origins (addresses equal; constraints equal or the JSON one is the unconstrained/dynamic one), and of the symbol outline (kind, name, nesting). Part 2: every one-constraint body of the catalogue (all constraint kinds and nestings of the tier) x 19 value forms both syntaxes express (strings not spelled like a traversal, numbers, booleans, references, templates, lists/objects nested, empty collections) x 3 places (root attribute, addressable root attribute, block attribute + nested block attribute inside an inferred, self-referable body), same oracle. Symbol order: where a configuration keeps blocks of one type together the outlines are equal as sequences. non-trivial = non-empty target projection",
 		BiteCounters: []string{"pairs", "constraint_pairs", "targets_compared", "origins_compared", "symbols_compared", "symbol_orders_compared"},
 	})
+}
+
+// c19JSONOriginText (part 3): in JSON files the bytes an origin's range covers - JSON escapes resolved - spell the
+// address the origin carries. JSON strings may hold escapes (\" in index keys, \uXXXX anywhere), so positions in
+// the decoded text are no positions in the file.
+func c19JSONOriginText(c *report.Collector) {
+	l := report.NewLocal()
+	defer c.Merge(l)
+	ent := gen.Entry{ID: "J:c19", Mk: c19Schema, Family: "struct", Hooks: -1}
+	values := []string{`var.a`, `var.\u0061`, `v\u0061r.a`, `var.a[\"k\"]`, `var.a[0]`, `var.\u00e9`, `${var.a}`, `${var.\u0061}`, `${var.a[\"k\"]}`, `x-${var.a}-\u00e9-${var.a}`, `\u00e9${var.a}`, `\n${var.a}`}
+	for _, v := range values {
+		for _, attr := range []string{"r", "s", "n"} {
+			text := "{\n  \"variable\": {\"a\": {}, \"\u00e9\": {}},\n  \"" + attr + "\": \"" + v + "\",\n  \"lst\": [\"" + v + "\"]\n}\n"
+			w := world.Build(explore.EntrySpec(&ent, []world.FileSpec{{Name: "main.tf.json", Text: text}}))
+			l.Count("calls", 1)
+			l.Count("json_origin_texts", 1)
+			for _, o := range w.Ctx(0).ReferenceOrigins {
+				r := o.OriginRange()
+				addr := ""
+				switch x := o.(type) {
+				case reference.LocalOrigin:
+					addr = x.Addr.String()
+				default:
+					continue
+				}
+				bad := ""
+				if r.Filename != "main.tf.json" || r.Start.Byte < 0 || r.End.Byte > len(text) || r.Start.Byte > r.End.Byte {
+					bad = "range outside the file"
+				} else {
+					raw := text[r.Start.Byte:r.End.Byte]
+					var dec string
+					if err := json.Unmarshal([]byte("\""+raw+"\""), &dec); err != nil {
+						bad = fmt.Sprintf("the covered bytes %q are no piece of a JSON string", raw)
+					} else if tr, d := hclsyntax.ParseTraversalAbs([]byte(dec), "x", hcl.InitialPos); d.HasErrors() {
+						bad = fmt.Sprintf("the covered bytes %q (decoded %q) are no traversal", raw, dec)
+					} else if a, err := lang.TraversalToAddress(tr); err != nil || a.String() != addr {
+						bad = fmt.Sprintf("the covered bytes %q spell %q, the origin is %q", raw, dec, addr)
+					} else if !run.ColumnsAgree([]byte(text), r.Start) || !run.ColumnsAgree([]byte(text), r.End) {
+						bad = fmt.Sprintf("line/column of %s do not belong to its bytes", fmtRange(r))
+					}
+				}
+				site := "legacy-string"
+				if strings.Contains(v, "${") {
+					// positions of an interpolated traversal come from hcl's JSON expression itself, which parses the
+					// decoded string (the loss of precision inside JSON strings the property mentions): counted, not claimed
+					if bad != "" {
+						l.Count("imprecise_ranges_inside_json_templates", 1)
+					}
+					continue
+				}
+				if bad != "" {
+					c.Add(&report.Violation{Clause: "json:origin-range-is-not-the-reference", Site: site, Check: "c19", SchemaID: ent.ID,
+						Files:  []report.FileSpec{{Path: "/p0", Name: "main.tf.json", Text: text}},
+						Detail: fmt.Sprintf("origin %s at %s: %s\nfile:\n%s", addr, fmtRange(r), bad, text)})
+				}
+			}
+		}
+	}
 }
